@@ -6,6 +6,7 @@ import (
 	"encoding/json"
 	"errors"
 	"fmt"
+	"regexp"
 	"sort"
 	"strings"
 
@@ -17,7 +18,26 @@ import (
 	"verif/mc/srgen"
 )
 
-var faults = []string{"none", "bad-signature", "auth-stripped", "auth-missing-from-response", "wrong-room", "no-state-key", "duplicate-key", "malformed-json", "listed-in-both"}
+var faults = []string{"none", "bad-signature", "auth-stripped", "auth-missing-from-response", "wrong-room", "no-state-key", "duplicate-key", "malformed-json", "listed-in-both",
+	// the event is in both lists, genuine in one and with a forged signature in the other: same event ID (it does not cover
+	// the signatures), different bytes
+	"twin-forged-in-state", "twin-forged-in-auth"}
+
+var sigRe = regexp.MustCompile(`("ed25519:[^"]*":")([A-Za-z0-9+/_-])`)
+
+// forgeSignature flips the first character of every signature of an event.
+func forgeSignature(js []byte) []byte {
+	return sigRe.ReplaceAllFunc(js, func(m []byte) []byte {
+		out := append([]byte(nil), m...)
+		if out[len(out)-1] == 'A' {
+			out[len(out)-1] = 'B'
+		} else {
+			out[len(out)-1] = 'A'
+		}
+		return out
+	})
+}
+
 var providerModes = []string{"returns-event", "returns-nothing", "errors"}
 
 type respCase struct {
@@ -94,13 +114,20 @@ func run1(r *harness.Run, c respCase) error {
 			missing[rr.ID] = rr
 			continue
 		}
-		if nick != "topic" && nick != "carol" {
-			authList = append(authList, js)
+		ajs, sjs := js, js
+		switch f {
+		case "twin-forged-in-state":
+			sjs = spec.RawJSON(forgeSignature(rr.JSON))
+		case "twin-forged-in-auth":
+			ajs = spec.RawJSON(forgeSignature(rr.JSON))
+		}
+		if (nick != "topic" && nick != "carol") || strings.HasPrefix(f, "twin-") {
+			authList = append(authList, ajs)
 		}
 		if nick == "carol" && f == "listed-in-both" {
 			authList = append(authList, js)
 		}
-		stateList = append(stateList, js)
+		stateList = append(stateList, sjs)
 		if f == "duplicate-key" {
 			// a second, different event for the same (type, state_key)
 			alt := *rr.E
@@ -190,8 +217,24 @@ func run1(r *harness.Run, c respCase) error {
 	}
 	all := append(append([]gmsl.PDU(nil), pa...), ps...)
 	sigOK := map[string]bool{}
+	twinned := map[string]bool{} // event IDs that arrived with differing bytes
+	bytesOf := map[string]string{}
 	for _, p := range all {
-		sigOK[p.EventID()] = gmsl.VerifyEventSignatures(context.Background(), p, fedgen.Verifier{}, fedgen.UID) == nil
+		ok := gmsl.VerifyEventSignatures(context.Background(), p, fedgen.Verifier{}, fedgen.UID) == nil
+		if prev, seen := sigOK[p.EventID()]; seen {
+			ok = ok && prev // an ID one of whose copies fails is dropped as a whole
+			if bytesOf[p.EventID()] != string(p.JSON()) {
+				twinned[p.EventID()] = true
+			}
+		}
+		sigOK[p.EventID()] = ok
+		bytesOf[p.EventID()] = string(p.JSON())
+	}
+	// whatever is returned must itself carry verified signatures (two events may share an ID and differ in their signatures)
+	for _, p := range append(append([]gmsl.PDU(nil), gotAuth...), gotState...) {
+		if e := gmsl.VerifyEventSignatures(context.Background(), p, fedgen.Verifier{}, fedgen.UID); e != nil {
+			return fmt.Errorf("faults %v, provider %s: returned event %s (%s) does not carry verified signatures: %v", c.Faults, c.Provider, p.EventID()[:8], p.Type(), e)
+		}
 	}
 	byID := map[string]gmsl.PDU{}
 	for _, p := range all {
@@ -223,13 +266,19 @@ func run1(r *harness.Run, c respCase) error {
 	}
 	cmp := func(what string, got []gmsl.PDU, in []gmsl.PDU) error {
 		var want, have []string
+		seenWant := map[string]bool{}
 		for _, p := range in {
-			if good[p.EventID()] {
+			// an ID that arrived with differing bytes: whether the genuine copy is kept is left open (checked above: nothing
+			// unverified is returned)
+			if good[p.EventID()] && !twinned[p.EventID()] && !seenWant[p.EventID()] {
 				want = append(want, p.EventID())
+				seenWant[p.EventID()] = true
 			}
 		}
 		for _, p := range got {
-			have = append(have, p.EventID())
+			if !twinned[p.EventID()] {
+				have = append(have, p.EventID())
+			}
 		}
 		sort.Strings(want)
 		sort.Strings(have)
@@ -807,7 +856,7 @@ func (b *backfiller) ProvideEvents(v gmsl.RoomVersion, ids []string) ([]gmsl.PDU
 func main() { harness.Main("C14", "fault_enumeration", run) }
 
 func run(r *harness.Run) {
-	r.Rule("federation responses built from a generated room (create, creator join, power levels, join rules, two joins, a topic) with hash-derived event IDs and reference signatures, room versions 1 and 10: every single and every pair of per-event faults {bad signature, not allowed by its own auth events, auth event missing from the response, wrong room, no state key, duplicate state key, malformed JSON, listed in both lists} x event-provider behaviour {returns event, returns nothing, errors} through CheckStateResponse and CheckSendJoinResponse; send_join responses whose state forbids the join although the auth events the join cites (all part of that state) allow it; VerifyEventAuthChain (with a provider returning exactly the requested events, and one returning their whole auth chains) / VerifyAuthRulesAtState with a missing or disallowed event at every depth x state contents x allowValidation; LoadAndVerify / RequestBackfill on every batch of <= 3 inputs over events x {intact, bad signature, disallowed, malformed, listed twice}, batches of <= 2 intact events with a disallowed event one or more levels below them in the auth chain (served by the provider), and the same loader given a batch twice. Oracle recomputed per event from already-checked parts (VerifyEventSignatures, Allowed on an independently assembled auth set).")
+	r.Rule("federation responses built from a generated room (create, creator join, power levels, join rules, two joins, a topic) with hash-derived event IDs and reference signatures, room versions 1 and 10: every single and every pair of per-event faults {bad signature, not allowed by its own auth events, auth event missing from the response, wrong room, no state key, duplicate state key, malformed JSON, listed in both lists, listed in both lists with a forged signature on one of the copies (same event ID, different bytes)} x event-provider behaviour {returns event, returns nothing, errors} through CheckStateResponse and CheckSendJoinResponse; send_join responses whose state forbids the join although the auth events the join cites (all part of that state) allow it; VerifyEventAuthChain (with a provider returning exactly the requested events, and one returning their whole auth chains) / VerifyAuthRulesAtState with a missing or disallowed event at every depth x state contents x allowValidation; LoadAndVerify / RequestBackfill on every batch of <= 3 inputs over events x {intact, bad signature, disallowed, malformed, listed twice}, batches of <= 2 intact events with a disallowed event one or more levels below them in the auth chain (served by the provider), and the same loader given a batch twice. Oracle recomputed per event from already-checked parts (VerifyEventSignatures, Allowed on an independently assembled auth set).")
 	r.Assume("VerifyEventSignatures and Allowed are used as sub-oracles (their own properties are C06 / C07)", "RequestBackfill keeping events whose only failure is the signature check is documented library behaviour")
 	r.OnReplay("resp", func(raw json.RawMessage) error {
 		var c respCase
